@@ -10,7 +10,8 @@ import (
 )
 
 // token alphabet for matching histories (C01, C02, C30, C40)
-var alphaTopics = []string{"a", "a/b", "a/b/c", "a//b", "/a", "a/", "b", "b/a", "$x", "$x/a", "$SYS/x", "a/b/c/d", "/"}
+// ("$" is special only as the first character of a topic: "a/$b" is an ordinary topic that leading wildcards match)
+var alphaTopics = []string{"a", "a/b", "a/b/c", "a//b", "/a", "a/", "b", "b/a", "$x", "$x/a", "$SYS/x", "a/b/c/d", "/", "a/$b", "b/$"}
 var alphaFilters = []string{"a", "a/b", "a/#", "a/+", "+", "#", "+/b", "+/#", "a/+/c", "a/b/#", "+/+", "/#", "/+", "a//b", "a/+/b", "$x/#", "$x/+", "+/a", "a/b/c/#", "b/#", "/a", "a/"}
 var alphaShared = []string{"$share/g1/a/#", "$share/g1/+", "$share/g2/a/b", "$share/g1/#", "$share/g2/+/b", "$SHARE/g1/a"}
 
